@@ -354,24 +354,23 @@ CloseAgree         == Holds("CloseAgree")
 NoHang             == Holds("NoHang")
 
 (* Every deviation on its own (everything else ideal) must break an invariant, and the driver wants to know
-   which and where: a constant-level enumeration over the same product space, printed by the POSTCONDITION.   *)
-BadResp(D) == {i \in RespInputs :
-                 LET o == SrvDecideD(i, Sz0, D)
-                     v == RespChecks(i, o, CliDecideD(i, o, D))
-                 IN  \E n \in InvNames : ~v[n]}
-BadReq(D)  == {q \in ReqInputs :
-                 LET o == ReqDecideD(q, Sz0, D)
-                 IN  ~o.refused /\ LET v == ReqChecks(q, o, SrvReqDecideD(q, o, D)) IN \E n \in InvNames : ~v[n]}
-BrokenBy(D, bi, bq) ==
-    {n \in InvNames :
-        \/ \E i \in bi : LET o == SrvDecideD(i, Sz0, D) IN ~RespChecks(i, o, CliDecideD(i, o, D))[n]
-        \/ \E q \in bq : LET o == ReqDecideD(q, Sz0, D) IN ~ReqChecks(q, o, SrvReqDecideD(q, o, D))[n]}
+   which, on how many inputs, and where: a constant-level enumeration over the same product space
+   (one pass per deviation over the side it belongs to), printed by a POSTCONDITION
+   (WireDecisionExhibit.tla runs it for a subset of the deviations, so that the subsets run in parallel).   *)
+ReqSideDevs == {"ChunkedFlagTruthy", "ChunkedSetsTE", "HeadReqBodyFramed", "Http10NoChunkedReq", "Expect10Proceeds"}
+FailResp(i, D) == LET o == SrvDecideD(i, Sz0, D)
+                      v == RespChecks(i, o, CliDecideD(i, o, D))
+                  IN  {n \in InvNames : ~v[n]}
+FailReq(q, D)  == LET o == ReqDecideD(q, Sz0, D) IN
+                  IF o.refused THEN {}
+                  ELSE LET v == ReqChecks(q, o, SrvReqDecideD(q, o, D)) IN {n \in InvNames : ~v[n]}
 Exhibit(k) ==
-    LET D == OnlyOff(k)
-        bi == BadResp(D)
-        bq == BadReq(D)
-        wit == IF bi # {} THEN CHOOSE i \in bi : TRUE ELSE IF bq # {} THEN CHOOSE q \in bq : TRUE ELSE [none |-> TRUE]
-    IN <<"VP", "E", k, BrokenBy(D, bi, bq), Cardinality(bi) + Cardinality(bq), wit>>
+    LET D   == OnlyOff(k)
+        bad == IF k \in ReqSideDevs
+               THEN {p \in {<<q, FailReq(q, D)>> : q \in ReqInputs} : p[2] # {}}
+               ELSE {p \in {<<i, FailResp(i, D)>> : i \in RespInputs} : p[2] # {}}
+        wit == IF bad # {} THEN (CHOOSE p \in bad : TRUE)[1] ELSE [none |-> TRUE]
+    IN <<"VP", "E", k, UNION {p[2] : p \in bad}, Cardinality(bad), wit>>
 PrintExhibits == TLCGet("distinct") >= 0 /\ \A k \in DevNames : PrintT(Exhibit(k))
 
 \* --- the same invariants with the named deviations carved out (as-coded configuration).  A carve-out exists only
